@@ -24,6 +24,11 @@ import "zzmod/d"
 type DT = d.T
 
 type PT = *d.T
+
+// aliases of composite types built from the type
+type ST = []d.T
+
+type MT = map[string]*d.T
 `
 
 const c13SrcAl2 = `package al2
@@ -79,6 +84,35 @@ func «FN»(p «PTY») { // ONLY-PARAM
 	p.F = 3 // ONLY-ASSIGN
 	p.M() // ONLY-MCALL
 }
+`
+
+// files whose only reference to the type is a composite type built from it: spelled out, and through an alias of a third package
+const c13SrcCompDirect = `package u
+
+import "zzmod/d"
+
+var CD []d.T // COMP-DIRECT-SLICE
+`
+
+const c13SrcCompDirectM = `package u
+
+import "zzmod/d"
+
+var CDM map[string]*d.T // COMP-DIRECT-MAP
+`
+
+const c13SrcCompAlias = `package u
+
+import "zzmod/al"
+
+var CA al.ST // COMP-ALIAS-SLICE
+`
+
+const c13SrcCompAliasM = `package u
+
+import "zzmod/al"
+
+var CAM al.MT // COMP-ALIAS-MAP
 `
 
 type c13Only struct {
@@ -163,6 +197,12 @@ func ZZC13Spelling() {
 	for _, v := range c13Onlys {
 		files = append(files, nd.File{Pkg: "zzmod/u", Name: v.file, Src: c13OnlySrc(v)})
 	}
+	comps := []struct{ file, src, marker string }{
+		{"comp_direct.go", c13SrcCompDirect, "COMP-DIRECT-SLICE"}, {"comp_directm.go", c13SrcCompDirectM, "COMP-DIRECT-MAP"},
+		{"comp_alias.go", c13SrcCompAlias, "COMP-ALIAS-SLICE"}, {"comp_aliasm.go", c13SrcCompAliasM, "COMP-ALIAS-MAP"}}
+	for _, c := range comps {
+		files = append(files, nd.File{Pkg: "zzmod/u", Name: c.file, Src: c.src})
+	}
 	prog := nd.LoadProgram(files, holes)
 	cfg := config.Default()
 	rd := Analyze(prog, cfg, "zzmod/d", Facts{}, "imm", "ctor", "tonl", "pkgo")
@@ -205,6 +245,13 @@ func ZZC13Spelling() {
 			Expect{f, nd.LineOf(src, "ONLY-PARAM"), "TONL01", tonl},
 			Expect{f, nd.LineOf(src, "ONLY-PARAM"), "PKGO01", pkgo},
 			Expect{f, nd.LineOf(src, "ONLY-ASSIGN"), "IMM01", imm},
+		)
+	}
+	for _, c := range comps {
+		f := "/zz/zzmod/u/" + c.file
+		exp = append(exp,
+			Expect{f, nd.LineOf(c.src, c.marker), "TONL01", tonl},
+			Expect{f, nd.LineOf(c.src, c.marker), "PKGO01", pkgo},
 		)
 	}
 	// the file that only declares the aliases references d.T there: PKGO01 once for that file
